@@ -155,6 +155,10 @@ func (r *regulator) requestPlayers(count int) []string {
 
 func (r *regulator) getAvailableTable() (*Table, error) {
 
+	if t, ok := r.verifPickTable(); ok {
+		return t, nil
+	}
+
 	for _, t := range r.tables {
 		if t.Required > 0 {
 			return t, nil
